@@ -82,6 +82,58 @@ def pool_group(name, sc, seed, variant, encs):
                          "encodings": [e[0] for e in encs], "X": X.tolist(), "y_abstract": y_abs.tolist()}}
 
 
+# (a sentinel must be a value that cannot occur as a target - 0.0 is the prior mean of the kernel regressor and is
+#  therefore simulated as a label by the expected-change strategies; it is not a reserved number)
+REG_SENTINELS = [("float-nan", np.nan), ("float-minus999", -999.0), ("float-1e6", 1e6), ("float-minus1", -1.0)]
+
+
+def reg_group(name, sc, seed, variant):
+    """regression strategies: the targets stay, the missing-label sentinel varies (NaN / reserved numbers).  When
+    the call fails in the same way under every sentinel there is nothing to compare (the scenario is outside the
+    strategy's domain for reasons that have nothing to do with the encoding)."""
+    entry = REG_ENTRIES[name]
+    conc = pc.concretise(sc, entry, seed)
+    X = conc["X"]
+    y0 = conc["y"]
+    cand = conc["candidates"]
+    sent = [s_ for s_ in REG_SENTINELS if not np.any(y0 == s_[1])]
+    obs, raised = [], []
+    for ename, ml in sent:
+        try:
+            qs = entry.make(seed, ml, (0, 1))
+            kw = zoo.model_kwargs(entry, ml, zoo.REG, seed=seed, variant=variant)
+            y = np.where(np.isnan(y0), ml, y0)
+            np.random.seed(5)
+            with warnings.catch_warnings():
+                warnings.simplefilter("ignore")
+                with np.errstate(all="ignore"):
+                    with pc.time_limit(120):
+                        q, u = qs.query(X.copy(), y, candidates=None if cand is None else np.array(cand),
+                                        batch_size=1, return_utilities=True, **kw)
+            u = np.asarray(u, dtype=float)
+            obs.append((ename, u[0], int(np.asarray(q).ravel()[0])))
+        except Exception as ex:
+            raised.append((ename, "%s: %s" % (type(ex).__name__, str(ex)[:160])))
+    if raised and obs:
+        events = [{"ev": "Raised", "exc": raised[0][1], "encoding": raised[0][0]}]
+    elif raised:
+        kinds = {r[1].split(":")[0] for r in raised}
+        events = [] if len(kinds) == 1 else [{"ev": "Raised", "exc": " / ".join(sorted(kinds)), "encoding": "-"}]
+    else:
+        finite = [abs(v) for o in obs for v in o[1] if np.isfinite(v)]
+        scale = max(max(finite), 1e-6) if finite else 1.0
+        events = [{"ev": "Obs", "name": n_, "vals": [[j + 1, _enc(v, scale)] for j, v in enumerate(row)],
+                   "sel": sel + 1, "samekeys": True, "cmpsel": True} for n_, row, sel in obs]
+    return {"id": "reg:%s/%s/seed%d/v%d" % (name, pc.scenario_tag(sc), seed, variant), "band": BAND,
+            "events": events,
+            "concrete": {"subject": "pool-regression:" + name, "scenario": sc, "seed": seed, "variant": variant,
+                         "encodings": [e[0] for e in sent], "X": X.tolist(),
+                         "y": [None if v != v else float(v) for v in y0]}}
+
+
+REG_ENTRIES = {}
+
+
 def clf_makers():
     from sklearn.linear_model import LogisticRegression
     from sklearn.naive_bayes import GaussianNB
@@ -289,6 +341,8 @@ def _job(arg):
         return stream_group(*arg[1:])
     if arg[0] == "ma":
         return ma_group(*arg[1:])
+    if arg[0] == "reg":
+        return reg_group(*arg[1:])
     return clf_group(*arg[1:])
 
 
@@ -308,6 +362,7 @@ def main(tier="quick", seed=0):
     # registry configurations plus the non-default parameter settings of C05 (metric=..., cost matrices,
     # dictionaries): helper models built inside a strategy must receive the configured sentinel too
     ENTRIES.update({e.name: e for e in zoo.entries() + c05.extra_entries() if not zoo.is_regression(e)})
+    REG_ENTRIES.update({e.name: e for e in zoo.entries() + c05.extra_entries() if zoo.is_regression(e)})
     CLFS.update(clf_makers())
     STREAMS.update(stream_makers())
     chk.model_check("MC_Encoding", "MC_Encoding.cfg")
@@ -321,6 +376,10 @@ def main(tier="quick", seed=0):
             k = 4 if quick else 7
             pick = [encs_all[0]] + [encs_all[int(j)] for j in rng.choice(np.arange(1, len(encs_all)), size=k - 1, replace=False)]
             jobs.append(("pool", e.name, pool[int(i)], int(rng.integers(0, 1000)), n_ % 2, pick))
+    for e in REG_ENTRIES.values():
+        pool = [s for s in scenarios if pc.applicable(e, s)]
+        for n_, i in enumerate(rng.choice(len(pool), size=min(per_cost[e.cost], len(pool)), replace=False)):
+            jobs.append(("reg", e.name, pool[int(i)], int(rng.integers(0, 1000)), n_ % 2))
     geoms = ["distinct", "duplicates", "all-equal"]
     pats = ["none", "one-class", "all-classes"]
     for name in sorted(CLFS):
@@ -343,7 +402,9 @@ def main(tier="quick", seed=0):
                 "sentinel x dtype: float/NaN, int/-1, 10-20/-1, 10.0-20.0/NaN, str/'unlabeled', object/None, "
                 "negative ints/99) for %d classification strategy configurations on PoolGen scenarios and %d "
                 "classifiers on seeded data (no labels / one class / both classes) and %d stream strategy configurations "
-                "(3 chunks of query + update each); evaluations = observations" % (len(ENTRIES), len(CLFS), len(STREAMS)))
+                "(3 chunks of query + update each), the multi-annotator strategies on label matrices, and %d regression "
+                "strategy configurations under the sentinels NaN / -999 / 1e6 / -1 (targets unchanged); evaluations = "
+                "observations" % (len(ENTRIES), len(CLFS), len(STREAMS), len(REG_ENTRIES)))
     chk.validate("EquivTrace", traces, key_of=finding_key, describe=lambda t: t["concrete"])
     chk.assumptions = ["only combinations accepted by check_missing_label are used (numeric sentinels with numeric "
                        "labels, string sentinel with string labels, None with object labels)",
